@@ -814,6 +814,13 @@ def c06(tier, seed):
         out.append({'via': 'hook', 'script': pre + ['insert 20 20 0', 'events ' + ' '.join(evs + ['20,0,0']), 'wait_fg 20 20', 'poll', 'dump', 'poll', 'dump'],
                     'expect': ['wait_fg status=0 pending=0', 'poll pending=0', final, 'poll pending=0', final],
                     'area': 'events:latest-stop-or-continue-decides', 'id': 'parked ' + ' '.join(evs)})
+    # what was recorded about a process that is gone does not meet a later process with the same pid
+    T_N = 'table [id=1 jid=1 gid=30 status=Running bg=1 pids=[30] stopped=[]]'
+    for evs, nm in ((['30,2,19', '30,0,0'], 'stopped then exited'), (['30,2,19', '30,1,9'], 'stopped then killed'), (['30,2,19', '30,3,0', '30,0,0'], 'continued then exited')):
+        out.append({'via': 'hook', 'script': ['insert 30 30 1', 'insert 20 20 0', 'events ' + ' '.join(evs + ['20,0,0']), 'wait_fg 20 20', 'poll', 'dump',
+                                              'insert 30 30 1', 'poll', 'dump'],
+                    'expect': ['wait_fg status=0 pending=0', 'poll pending=0', 'table', 'poll pending=0', T_N],
+                    'area': 'events:record-of-a-dead-process-meets-a-reused-pid', 'id': 'pid reused after ' + nm})
     # the foreground wait returns when every member has exited or is stopped, whatever the order of the events; status = last member's
     waits = [
         (['20,2,19', '20,3,0', '20,0,0', '21,0,7'], 'wait_fg status=7 pending=0'),
